@@ -111,7 +111,7 @@ void dom_queue(void) {
     /* exhaustive: all op sequences up to length L over a 9-letter alphabet, capacities 1..4 */
     static const char *alpha[] = {" p,-100,N,0,1", " p,5,4142,0,1", " p,-200,4142,1,1", " p,-113,612062,0,0",
                                   " p,7,-,0,1", " o", " s", " k", " c"};
-    int L = h_thorough ? 6 : 5, cap, len; unsigned long idx, total; char in[4096];
+    int L = h_thorough ? 6 : 5, cap, len; unsigned long idx, total; static char in[60000];
     for (cap = 1; cap <= 4; cap++)
         for (len = 1; len <= L; len++) {
             total = 1; { int i; for (i = 0; i < len; i++) total *= 9; }
@@ -122,6 +122,21 @@ void dom_queue(void) {
                 if (h_mine_str(in)) run_queue(in);
             }
         }
+    /* large capacities (the index fields are 16 bits wide; a queue of N entries holds N errors whatever N): fill beyond the
+     * capacity, count, drain in order, clear a partly filled queue and use it again */
+    { static const int caps[] = {100, 127, 128, 129, 200, 255, 256, 257, 300, 511, 512, 1000}; unsigned long n = h_thorough ? 120 : 24;
+      for (; n; n--) {
+          size_t k; int i, fill, pops;
+          cap = caps[n % 12];
+          k = (size_t) snprintf(in, sizeof in, "Q %d", cap);
+          fill = cap - 2 + (int) h_below(5);
+          for (i = 0; i < fill; i++) k += (size_t) snprintf(in + k, sizeof in - k, " p,%d,%s,0,1", (i % 2000) + 1, (i % 7 == 3) ? "4142" : "N");
+          k += (size_t) snprintf(in + k, sizeof in - k, " c");
+          pops = h_chance(50) ? fill + 1 : (int) h_below((unsigned) fill);
+          for (i = 0; i < pops; i++) k += (size_t) snprintf(in + k, sizeof in - k, "%s", (i % 5 == 4) ? " s" : " o");
+          k += (size_t) snprintf(in + k, sizeof in - k, " c k c p,-100,N,0,1 p,5,4142,0,1 c o o o");
+          if (h_mine_str(in)) run_queue(in);
+      } }
     /* random histories */
     { unsigned long n = h_thorough ? 20000 : 3000;
       for (; n; n--) {
